@@ -3,7 +3,7 @@
 From Coq Require Import List ZArith Extraction ExtrOcamlBasic.
 From LMBase Require Import Res.
 From LMDense Require Import DenseModel.
-From LMFootprint Require Import FpModel FpNeon FpHistory.
+From LMFootprint Require Import FpModel FpNeon FpHistory FpCap.
 
 Extraction Language OCaml.
 Extraction "footprint_model.ml"
@@ -18,4 +18,5 @@ Extraction "footprint_model.ml"
   fp_from_rows from_rows_rows fp_ravel fp_fill fp_sample sample_rows ext_dense
   configure_wrap_model stride row_bytes
   hstep htrace hfinal h0
+  cb_resize cb_clone alloc_score fp_score_u8_avx2_pipelined wrap_score_u8_avx2_pipelined cstep ctrace cfinal c0
   fp_encode_into_neon fp_score_f32_neon fp_score_u8_neon wrap_score_f32_neon wrap_score_u8_neon balign_mat16.
